@@ -1,16 +1,20 @@
 from engine import Obl
 
 META = {
- "level_text": "CBMC symbolic execution of the real lib/log_thread.c at critical-section granularity: producer, worker and control operations are interleaved by EVERY history of 5 (quick) / 6 (thorough) steps over {thread_start, post a message, one worker-loop iteration (only when the semaphore is positive), thread_stop (its join runs worker iterations until the worker exits), post while the backlog counter is at the 512000-byte limit}; every step is one real library call over counting-semaphore / ghost-lock / pthread stubs that assert use of destroyed locks and semaphores. Oracle: messages are written in posting order, each once; posted = written + dropped once stop has returned; a dropped message leaves the accounting unchanged; after stop a new start creates a worker again.",
+ "level_text": "CBMC symbolic execution of the real lib/log_thread.c at critical-section granularity: producer, worker and control operations are interleaved by EVERY history of 5 (quick) / 6 (thorough) steps over {thread_start, control operation on a threaded target (pause+resume as qb_log_ctl2 does), post a message, one worker-loop iteration (only when the semaphore is positive), thread_stop (its join runs worker iterations until the worker exits), post while the backlog counter is at the 512000-byte limit}; every step is one real library call over counting-semaphore / ghost-lock / pthread stubs that assert use of destroyed locks and semaphores. Oracle: messages are written in posting order, each once; posted = written + dropped once stop has returned; a dropped message leaves the accounting unchanged; after stop a new start creates a worker again.",
  "level_note": "Interleavings INSIDE a critical section or between an unlock and the following sem_post (instruction granularity), data races on unprotected variables and real scheduler behaviour are NOT decided: CBMC's thread mode rejects this unit. The qb_log_real_va_/qb_log_ctl2/qb_log_fini layer of lib/log.c is not included (steps call the log_thread API directly), so target enable/disable/reconfigure during operation is not decided. Histories are scenario constants (exhaustive for the alphabet and length). Trusted: CBMC, the semaphore/lock/pthread stubs.",
  "technique": "CBMC bounded symbolic execution of real C code over an exhaustive table of schedules at critical-section granularity (cooperative sequentialisation); ghost counters oracle",
  "assumptions": ["allocation never fails", "the worker is scheduled only when its semaphore is positive (a blocked thread does not run)"],
 }
 def obligations(tier):
     nops = 5 if tier == "quick" else 6
-    return [Obl("sched-N%d-part%d" % (nops, part), "c16_thread.c", defs=["NOPS=%d" % nops, "FIRST=0", "noreturn=", "SC_BASE=%d" % (part * (5 ** (nops - 1) // 5))],
-                unwind=nops + 4, n_entries=5 ** (nops - 1) // 5, paths=True, timeout=120, mem_gb=4, object_bits=9,
+    obs = []
+    for first in (0, 5):      # histories start with thread_start, or with a control operation before the thread exists
+      for part in range(6):
+        per = 6 ** (nops - 1) // 6
+        obs.append(Obl("sched-N%d-first%d-part%d" % (nops, first, part), "c16_thread.c", defs=["NOPS=%d" % nops, "FIRST=%d" % first, "noreturn=", "SC_BASE=%d" % (part * per)],
+                unwind=nops + 4, n_entries=per, timeout=120, mem_gb=4, object_bits=9,
                 kf=["C16-restart-no-worker"],
-                bounds={"history_length": nops, "first": "thread_start", "scenarios": "%d..%d of %d" % (part * (5 ** (nops - 1) // 5), (part + 1) * (5 ** (nops - 1) // 5) - 1, 5 ** (nops - 1))},
-                units=["lib/log_thread.c"], stubs=["counting semaphores", "ghost locks", "pthread_create/join/exit model", "qb_log_thread_log_write = recorder"])
-            for part in range(5)]
+                bounds={"history_length": nops, "first": "thread_start" if first == 0 else "control op", "scenarios": "%d..%d of %d" % (part * per, (part + 1) * per - 1, 6 ** (nops - 1))},
+                units=["lib/log_thread.c"], stubs=["counting semaphores", "ghost locks", "pthread_create/join/exit model", "qb_log_thread_log_write = recorder"]))
+    return obs
